@@ -142,9 +142,12 @@ _HTML_POOL: dict = {}
 
 def _shared(v):
     """HTML() values with equal text are ONE object throughout a run (an HTML object used for
-    several attributes / tags / calls): merging must not modify it"""
+    several attributes / tags / calls): merging must not modify it.  Plain strings are, for some
+    texts, instances of a str subclass (unusual but valid: they must be treated as str)."""
     if isinstance(v, HTML):
-        return _HTML_POOL.setdefault(str(v), v)
+        return _HTML_POOL.setdefault(str(v), trees.mk_html(str(v)))
+    if type(v) is str:
+        return trees.mk_text(v)
     return v
 
 
